@@ -1,7 +1,15 @@
 use crate::report::Args;
 
 pub mod c04;
+pub mod c05;
+#[cfg(feature = "parallel")]
+pub mod c11;
 pub mod c13;
+pub mod c14;
+#[cfg(feature = "parallel")]
+pub mod c15;
+#[cfg(feature = "parallel")]
+pub mod c16;
 pub mod c18;
 pub mod c19;
 pub mod c20;
@@ -14,10 +22,18 @@ pub fn run(args: &Args) -> i32 {
         "c02" => sched::run(args, "c02", "C02", 2400, 60_000, 8),
         "c03" => sched::run(args, "c03", "C03", 2400, 60_000, 8),
         "c04" => c04::run(args),
+        #[cfg(feature = "parallel")]
+        "c11" => c11::run(args),
         "c13" => c13::run(args),
+        "c14" => c14::run(args),
+        #[cfg(feature = "parallel")]
+        "c15" => c15::run(args),
+        #[cfg(feature = "parallel")]
+        "c16" => c16::run(args),
         "c18" => c18::run(args),
         "c19" => c19::run(args),
         "c20" => c20::run(args),
+        "c05" => c05::run(args),
         "c07" => sched::run(args, "c07", "C07", 1600, 40_000, 5),
         "c10" => sched::run(args, "c10", "C10", 6000, 200_000, 0),
         "c12" => sched::run(args, "c12", "C12", 1600, 40_000, 4),
